@@ -52,7 +52,7 @@ CLAIMS = {
                  "ulp-scale terms); rounding options, NaN / inf bases and dtypes are not decided. numpy enters through assumed "
                  "contracts validated against numpy on every run. Obligations the solvers cannot decide (nonlinear interpolation) "
                  "are never reported as violations on their own: the contract's native probe scenarios are run and only a failing "
-                 "real input is reported. Later additions: calc after an earlier calc and an in-place change of the scale (history cases), numpy.any / all / shape."),
+                 "real input is reported. Later additions: calc after an earlier calc and an in-place change of the scale (history cases), numpy.any / all / shape; the bracket look-ups (marginal_rates, rate_from_tax_base, threshold_from_tax_base) after an earlier look-up and an in-place change; numpy.max with an initial value."),
         "technique": "contract-based deductive verification (2-D array algebra, reduction nodes compared pointwise, inductive lemmas + SMT)",
         "design_ref": "DESIGN.md section 4 C08, section 3.4",
     },
@@ -111,7 +111,7 @@ CLAIMS = {
                  "indices wrapped to 255, foreign members accepted) were repaired by fix: commits."),
         "note": ("numpy enters through assumed contracts validated against numpy on every run (mask indexing, astype(uint8) = mod 256, "
                  "fancy indexing). Encoding by member NAME (isin / argsort / searchsorted on string arrays) is not under contract and "
-                 "the enum metaclass that builds the tables is modelled, not verified: both are listed as not decided. Later additions: EnumType.__new__ on four declarations (with aliases) against an assumed contract of the standard library's class creation; a bounded stand-in on real declarations (tables, round trips, members of other enumerations - which found that same-named enumerations were interchangeable; repaired)."),
+                 "the enum metaclass that builds the tables is modelled, not verified: both are listed as not decided. Later additions: EnumType.__new__ on four declarations (with aliases) against an assumed contract of the standard library's class creation; a bounded stand-in on real declarations (tables, round trips, members of other enumerations - which found that same-named enumerations were interchangeable; repaired); enumeration classes are dictionary keys and compare by name, as their metaclass defines; _str_to_index after a same-named enumeration was looked up; sequences mixing an index with a float or a member with an index are refused."),
         "technique": "contract-based deductive verification (symbolic execution over a numpy array algebra + SMT)",
         "design_ref": "DESIGN.md section 4 C15, section 2.6",
     },
@@ -156,7 +156,7 @@ CLAIMS = {
                  "node current at entry with the value returned, with the real SimpleTracer / FullTracer executed inside."),
         "note": ("File content goes through the assumed numpy.save/load round trip (validated natively per dtype on every run; object "
                  "dtype, i.e. string variables, is known not to load without pickle and is outside the claim); file names through an "
-                 "injective token for str(period) (C05). psutil is an arbitrary real. FlatTrace rendering is not under contract. Later additions: delete of one definition period under every storage setting, a neutralised variable read twice, the ADD / DIVIDE contracts (every piece read through calculate), the spreading rules (known-period test through the holder's view), calculate interrupted by a BaseException."),
+                 "injective token for str(period) (C05). psutil is an arbitrary real. FlatTrace rendering is not under contract. Later additions: delete of one definition period under every storage setting, a neutralised variable read twice, the ADD / DIVIDE contracts (every piece read through calculate), the spreading rules (known-period test through the holder's view), calculate interrupted by a BaseException; deleting a day from a store of days and a month from a store of months (memory and disk); a period stored on disk, read, stored again and read."),
         "technique": "contract-based deductive verification (symbolic execution of the real source with recording call-site contracts + SMT)",
         "design_ref": "DESIGN.md section 4 C17",
     },
